@@ -107,6 +107,9 @@ def load_findings(pid):
 # --------------------------------------------------------------------------
 
 
+DEFAULT_REPLAY = None  # set by vlib.eqinst: generic replay through the encodings the goal mentions
+
+
 class Obligation:
     __slots__ = ("name", "family", "goal", "assumptions", "replay", "expect", "timeout", "stretch", "meta", "text", "goal_text", "result", "kind")
 
@@ -333,15 +336,25 @@ class Check:
                 trivial += bool(o.result.get("trivial"))
                 continue
             if st == "sat":
-                rr = None
-                if o.replay is not None:
+                rr = {"reproduced": False, "detail": "no replay function"}
+                specific = o.replay if os.environ.get("VERIF_REPLAY") != "generic" or o.kind != "solver" else None
+                if specific is not None:
                     try:
-                        rr = o.replay(_model(o.result))
+                        rr = specific(_model(o.result))
                     except Exception as ex:
                         traceback.print_exc()
                         rr = {"reproduced": False, "detail": f"replay raised {ex!r}"}
-                else:
-                    rr = {"reproduced": False, "detail": "no replay function"}
+                if not rr.get("reproduced") and DEFAULT_REPLAY is not None and o.kind == "solver":
+                    # generic replay through the encodings the goal mentions (also the fallback when the specific replay's point was unlucky)
+                    try:
+                        r2 = DEFAULT_REPLAY(o)(_model(o.result))
+                    except Exception as ex:
+                        traceback.print_exc()
+                        r2 = {"reproduced": False, "detail": f"generic replay raised {ex!r}"}
+                    if r2.get("reproduced"):
+                        rr = r2
+                    else:
+                        rr = {"reproduced": False, "detail": f"{rr.get('detail')} | generic replay: {r2.get('detail')}"}
                 if rr.get("reproduced"):
                     key = next((k for k, _ in findings if fnmatch.fnmatch(o.name, k)), None)
                     if key is not None:
@@ -370,7 +383,7 @@ class Check:
         if harness_err and code == EXIT_OK:
             code = EXIT_HARNESS
         for o in inconclusive:
-            log(f"INCONCLUSIVE: {o.name}: {o.result.get('status')} {o.result.get('reason','')}")
+            log(f"INCONCLUSIVE: {o.name}: {o.result.get('status')} {o.result.get('reason','') or o.result.get('detail','')}")
         self._evidence(
             self.obls,
             len(violations),
@@ -465,8 +478,9 @@ class Check:
             "wall_s": round(time.time() - self.t0, 2),
             "violations": int(nviol),
         }
-        os.makedirs(os.path.join(ROOT, "evidence"), exist_ok=True)
-        with open(os.path.join(ROOT, "evidence", f"{self.pid}.json"), "w") as f:
+        evdir = os.environ.get("VERIF_EVIDENCE_DIR") or os.path.join(ROOT, "evidence")  # seeded-change runs write elsewhere (tools_seed.sh)
+        os.makedirs(evdir, exist_ok=True)
+        with open(os.path.join(evdir, f"{self.pid}.json"), "w") as f:
             json.dump(ev, f, indent=1, default=str)
 
 
